@@ -1,3 +1,180 @@
-import Klong.Model.C12
+/-
+  C12 — parsing always terminates and is repeatable: the property theorems.
+  Helper lemmas live in C12Lexer (scanning loops), C12Sat (the `SatW` predicate), C12KgRead
+  (`kg_read`/`read_list`), C12Parser/2/3 (one invariant per parser function, induction on fuel).
+-/
+import Klong.Props.C12Parser3
+import Klong.Props.C12Module
 namespace Klong.C12
+
+/-! ## the lexer advances -/
+
+/-- Every lexer function returns `i' ≥ i`, and `i' > i` whenever it returns a token; `kg_read`
+    (which recurses into lists) does so for every amount of fuel `≥ 8*(|t|+1-i)+1`, never spins,
+    never runs out of fuel, returns `None` only at the end of the text, in at most
+    `8*(|t|+1-i)+2` steps. -/
+theorem lexer_progress (cfg : Cfg) (t : Text) (i : Nat) :
+    (∀ ign, i ≤ skipSpace cfg t i ign) ∧
+    i ≤ readShiftedComment t i ∧
+    (∀ ign, i ≤ skip cfg t i ign ∧ skip cfg t i ign ≤ i + (t.length - i)) ∧
+    (∀ i' v, readNum cfg t i = (i', some v) → i < i') ∧
+    i ≤ (readString t i).1 ∧
+    (∀ m c, t[i]? = some c → isSymbolic cfg c = true → i < (readSym cfg t i m).1) ∧
+    (i < t.length → i < (readOp t i).1) ∧
+    ((peekAdverb t i).2 ≠ none → i < (peekAdverb t i).1) ∧
+    (∀ fuel rn ign m, i ≤ t.length + 1 → 8 * (t.length + 1 - i) + 1 ≤ fuel →
+      match kgRead cfg t fuel i rn ign m with
+      | .ok i' v _ st => i ≤ i' ∧ i' ≤ t.length + 1 ∧ (v.isNone = false → i < i') ∧
+                          (v.isNone = true → t.length ≤ i') ∧ st ≤ 8 * (t.length + 1 - i) + 2
+      | .err _ _ st => st ≤ 8 * (t.length + 1 - i) + 2
+      | .spin _ => False
+      | .outOfFuel => False) := by
+  refine ⟨fun ign => (skipSpace_bounds cfg t i ign).1, (readShiftedComment_bounds t i).1,
+    fun ign => skip_bounds cfg t i ign, fun i' v h => readNum_some_progress cfg t i i' v h,
+    (readString_bounds t i).1, fun m c h hs => readSym_progress cfg t i m c h hs,
+    fun h => (readOp_bounds t i h).1, fun h => ((peekAdverb_bounds t i).2 h).1, ?_⟩
+  intro fuel rn ign m hi hf
+  have h := (lexer_spec cfg t fuel).1 i rn ign m hi hf
+  cases hr : kgRead cfg t fuel i rn ign m with
+  | ok i' v m' st =>
+    rw [hr] at h
+    obtain ⟨q, h1, h2⟩ := h
+    cases hv : v.isNone <;> simp [KG, hv] at h2 ⊢ <;> omega
+  | err e m' st =>
+    rw [hr] at h
+    obtain ⟨q, h1, h2⟩ := h
+    simp only [KGE] at h2
+    simp; omega
+  | spin st => rw [hr] at h; exact h
+  | outOfFuel => rw [hr] at h; exact h
+
+example : (kgRead asciiCfg "  [1 [2 3]] x".toList 200 0 false false {}).endIndex = some 11 := by decide +kernel
+
+/-! ## the repaired `read_sys_comment` loop ends -/
+
+/-- With the guard (`while a and …`) the `startswith` loop of `read_sys_comment` stops within
+    `|t|+1` iterations for every marker, the empty one included: `.comment(...)` never spins. -/
+theorem comment_loop_terminates (cfg : Cfg) (hg : cfg.guardEmptyMarker = true) (t : Text) (a : List Char)
+    (i j0 : Nat) (h : findSub a (t.drop i) 0 = some j0) :
+    ∃ j, commentLoop cfg t a i (t.length + 1) j0 = some j ∧ j0 ≤ j ∧ (j = j0 ∨ i + j + a.length ≤ t.length) := by
+  have hfb := findSub_bounds a (t.drop i) 0 j0 h
+  simp only [List.length_drop] at hfb
+  have hsome := commentLoop_some cfg hg t a i (t.length + 1) j0 (by omega) (by omega)
+  cases hc : commentLoop cfg t a i (t.length + 1) j0 with
+  | none => rw [hc] at hsome; simp at hsome
+  | some j => exact ⟨j, rfl, commentLoop_bounds cfg hg t a i (t.length + 1) j0 j hc⟩
+
+example : commentLoop asciiCfg ".comment(\"\")".toList [] 12 13 0 = some 0 := by decide
+
+/-- the pinned tree (no guard): the loop of `.comment("")` is still running when the bound is hit -/
+theorem pinned_comment_loop_spins : commentLoop pinnedCfg ".comment(\"\")".toList [] 12 13 0 = none := by decide
+
+/-! ## parsing terminates, in quadratically many steps -/
+
+/-- For EVERY string, every character classification and monad table, every initial module and
+    every amount of fuel `≥ 8*(|t|+2)`, the parser of the repaired tree returns a program or an
+    error: no loop runs again from the same index (`.spin`), the recursion is never cut off
+    (`.outOfFuel`). -/
+theorem parse_terminates (cfg : Cfg) (hg : cfg.guardEmptyMarker = true) (t : Text) (m : PState) (fuel : Nat)
+    (hf : 8 * (t.length + 2) ≤ fuel) :
+    (parseWith cfg fuel m t).isSpin = false ∧ (parseWith cfg fuel m t).isOutOfFuel = false ∧
+    ((parseWith cfg fuel m t).isOk = true ∨ (parseWith cfg fuel m t).isErr = true) := by
+  have h := (spec_all cfg hg t fuel).prog 0 false m (by omega) (by simp only [need]; omega)
+  unfold parseWith
+  cases hr : prog cfg t fuel 0 false m with
+  | ok i v m' st => simp [Res.isSpin, Res.isOutOfFuel, Res.isOk]
+  | err e m' st => simp [Res.isSpin, Res.isOutOfFuel, Res.isErr]
+  | spin st => rw [hr] at h; exact absurd h (by simp [SatW])
+  | outOfFuel => rw [hr] at h; exact absurd h (by simp [SatW])
+
+/-- the entry point with its default fuel -/
+theorem parse_never_spins (cfg : Cfg) (hg : cfg.guardEmptyMarker = true) (t : Text) :
+    (parse cfg t).isSpin = false ∧ (parse cfg t).isOutOfFuel = false :=
+  let h := parse_terminates cfg hg t {} (fuelFor t) (Nat.le_refl _)
+  ⟨h.1, h.2.1⟩
+
+example : (parse asciiCfg "1+2".toList).isOk = true := by decide +kernel
+example : (parse asciiCfg "{x+".toList).isErr = true := by decide +kernel
+
+/-- The number of steps is at most `140*(|t|+2)^2` — for a successful parse and for an error alike
+    (the end index satisfies `i' ≤ |t|+1`). -/
+theorem parse_steps_poly (cfg : Cfg) (hg : cfg.guardEmptyMarker = true) (t : Text) (m : PState) (fuel : Nat)
+    (hf : 8 * (t.length + 2) ≤ fuel) :
+    (parseWith cfg fuel m t).steps ≤ 140 * (t.length + 2) * (t.length + 2) ∧
+    (∀ i v m' st, parseWith cfg fuel m t = .ok i v m' st → i ≤ t.length + 1) := by
+  have h := (spec_all cfg hg t fuel).prog 0 false m (by omega) (by simp only [need]; omega)
+  unfold parseWith
+  cases hr : prog cfg t fuel 0 false m with
+  | ok i v m' st =>
+    rw [hr] at h
+    obtain ⟨q, h1, h2⟩ := h
+    simp only [PL, Bd] at h2
+    have hq : q ≤ 140 * (t.length + 2) := by omega
+    refine ⟨?_, ?_⟩
+    · exact Nat.le_trans h1 (Nat.mul_le_mul_right _ hq)
+    · intro i0 v0 m0 st0 heq
+      cases heq
+      omega
+  | err e m' st =>
+    rw [hr] at h
+    obtain ⟨q, h1, h2⟩ := h
+    simp only [EB] at h2
+    have hq : q ≤ 140 * (t.length + 2) := by omega
+    refine ⟨Nat.le_trans h1 (Nat.mul_le_mul_right _ hq), ?_⟩
+    intro i0 v0 m0 st0 heq
+    cases heq
+  | spin st => rw [hr] at h; exact absurd h (by simp [SatW])
+  | outOfFuel => rw [hr] at h; exact absurd h (by simp [SatW])
+
+example : (parse asciiCfg "1+2".toList).steps = 19 := by decide +kernel
+
+/-! ## the pinned tree: `.comment("")` never returns -/
+
+/-- On the pinned tree (`read_sys_comment` without the guard) the parser spins on `.comment("")`:
+    the negation of `parse_terminates` on a concrete witness. -/
+theorem pinned_comment_spins : (parse pinnedCfg ".comment(\"\")".toList).isSpin = true := by decide +kernel
+
+/-- the same text on the repaired tree -/
+example : (parse asciiCfg ".comment(\"\")".toList).isOk = true := by decide +kernel
+
+/-! ## repeatability -/
+
+/-- Parsing is a function of (configuration, fuel, module state, text) and of nothing else: the
+    model has no other state to read or write, so two parses of the same text in the same module
+    are equal, whatever was parsed in between.  (The content of this statement for the real
+    parser is in the tie: repeat / history / variable-snapshot oracles of vlib/c12.py.) -/
+theorem parse_deterministic (cfg : Cfg) (fuel : Nat) (m : PState) (t u : Text) :
+    let r1 := parseWith cfg fuel m t
+    let _between := parseWith cfg fuel m u
+    let r2 := parseWith cfg fuel m t
+    r1 = r2 := rfl
+
+/-- The only state parsing changes is the current module, and only through `parse_module`: the
+    state after a parse — successful or not, for every text, fuel and initial state — is the state
+    before after zero or more `parseModule` steps (`Reach`); `PState` has no other component. -/
+theorem parse_module_effect (cfg : Cfg) (fuel : Nat) (m : PState) (t : Text) :
+    ∀ m', (parseWith cfg fuel m t).state = some m' → Reach m m' := by
+  intro m' h
+  have hr := (mspec_all cfg t fuel).prog 0 false m
+  unfold parseWith at h
+  cases hp : prog cfg t fuel 0 false m with
+  | ok i v m1 st => rw [hp] at h hr; simp only [Res.state, Option.some.injEq] at h; subst h; exact hr
+  | err e m1 st => rw [hp] at h hr; simp only [Res.state, Option.some.injEq] at h; subst h; exact hr
+  | spin st => rw [hp] at h; simp [Res.state] at h
+  | outOfFuel => rw [hp] at h; simp [Res.state] at h
+
+/-- the lexer changes nothing at all -/
+theorem lex_module_effect (cfg : Cfg) (fuel : Nat) (m : PState) (t : Text) (i : Nat) (rn ign : Bool) :
+    ∀ m', (kgRead cfg t fuel i rn ign m).state = some m' → Reach m m' := by
+  intro m' h
+  have hr := kgRead_rs cfg t fuel i rn ign m
+  cases hp : kgRead cfg t fuel i rn ign m with
+  | ok i v m1 st => rw [hp] at h hr; simp only [Res.state, Option.some.injEq] at h; subst h; exact hr
+  | err e m1 st => rw [hp] at h hr; simp only [Res.state, Option.some.injEq] at h; subst h; exact hr
+  | spin st => rw [hp] at h; simp [Res.state] at h
+  | outOfFuel => rw [hp] at h; simp [Res.state] at h
+
+example : (parse asciiCfg ".module(:m)".toList).state = some { mod := some ['m'] } := by decide +kernel
+example : (parse asciiCfg "a".toList).state = some {} := by decide +kernel
+
 end Klong.C12
